@@ -23,6 +23,7 @@ type M = map[string]any
 
 var out = bufio.NewWriterSize(os.Stdout, 1<<16)
 var Seed int64 = 1
+var watchdog = 30 * time.Second
 
 func emit(m M) {
 	b, err := json.Marshal(m)
@@ -59,6 +60,12 @@ func guard(f func() error) (o Outcome, err error) {
 	var m0, m1 runtime.MemStats
 	runtime.ReadMemStats(&m0)
 	t0 := time.Now()
+	// watchdog: a call that does not return is a hang (C13/C14); the process exits so the driver attributes it to this call
+	wd := time.AfterFunc(watchdog, func() {
+		fmt.Fprintln(os.Stderr, "watchdog: call did not return within", watchdog)
+		os.Exit(97)
+	})
+	defer wd.Stop()
 	defer func() {
 		if r := recover(); r != nil {
 			o.Kind = "panic"
